@@ -33,9 +33,9 @@ func newFamilyNode(document *Document, pointer string, children ...Node) *Family
 // checkCache forgets the husband and wife if any nodes have been added or
 // removed since they were cached.
 func (node *FamilyNode) checkCache() {
-	if node.cachedAt != nodeCache {
+	if current := currentNodeCache(); node.cachedAt != current {
 		node.resetCache()
-		node.cachedAt = nodeCache
+		node.cachedAt = current
 	}
 }
 
